@@ -137,6 +137,21 @@ export function gen(rng, params, mode) {
   if (mode === "sub-sem") return genSem(rng, params);
   const { decls, names } = genDecls(rng);
   const sc = { names };
+  if (rng.chance(1, 8)) {
+    // a container of a union against the union of the containers: refuting it needs as many positions as there are
+    // members on the right (each member is refuted at a different element)
+    const k = 2 + rng.below(3);
+    const pool = [A("string"), A("number"), A("boolean"), A("null"), lit("s", "a"), lit("n", "1"), [A("obj"), [["a", A("false"), A("string")]], A("none")], [A("array"), A("string")]];
+    const ms = []; while (ms.length < k) { const m = rng.pick(pool); if (!ms.some((x) => show(x) === show(m))) ms.push(m); }
+    const u = [A("union"), ...ms];
+    const shape = rng.below(5);
+    const wrap = (t) => shape === 0 ? [A("array"), t] : shape === 1 ? [A("tuple"), [t], t] : shape === 2 ? [A("tuple"), [A("string")], t] : shape === 3 ? [A("tuple"), Array.from({ length: k }, () => t), A("none")] : [A("obj"), [["a", A("false"), [A("array"), t]]], A("none")];
+    let x = wrap(u), y = [A("union"), ...ms.map(wrap)];
+    if (rng.chance(1, 4)) y = [A("union"), ...y.slice(1), wrap([A("union"), ms[0], ms[1]])];
+    if (rng.chance(1, 5)) [x, y] = [y, x];
+    const src = decls.map(tsOfDecl).join("\n") + `\nparse.buildParsers<{ R: (${tsOf(x)}) extends (${tsOf(y)}) ? "yes" : "no" }>();\n`;
+    return [A("sub"), A(String(counter++)), decls, x, y, src];
+  }
   const a = genSubTy(rng, 1 + rng.below(3), sc);
   let b;
   const r = rng.below(6);
